@@ -165,6 +165,7 @@ type Frame struct {
 	curBlk  *ssa.BasicBlock
 	curReach string
 	curSt    *State
+	closures []*Closure // closures created in this frame (their captured state may be touched when they escape)
 	jointExit map[*ssa.BasicBlock]bool // returning blocks whose [rundefers; loads; return] tail is executed once after merging
 	jointSts  []*State
 	jointGs   []string
